@@ -6,6 +6,7 @@ Paths are mostly grown by walking the generated document so that they select som
 import random
 
 KEYS = ["a", "b", "c", "d", "x", "y", "z", "k"]
+RESERVED_KEYS = ["parent", "wc", "rec", "shape", "wildcard", "gwc", "recursive", "generic_wildcard"]
 SCALARS = [None, True, False, 0, 1, 2, -1, 3, 0.0, 1.5, -2.5, "", "a", "x", "12", "-3", "abc"]
 FNS = ["int", "len", "truth", "not", "neg", "abs", "first", "boom_if_str", "ident"]
 OPS = ["lt", "le", "eq", "ne", "gt", "ge"]
@@ -29,6 +30,9 @@ def gen_doc(rng, depth=0, maxdepth=4, top=True):
     n = rng.randint(1, 4)
     if kind == "dict":
         keys = rng.sample(KEYS, min(n, len(KEYS)))
+        if rng.random() < 0.12:
+            # keys that are also attribute names of the path builder
+            keys[rng.randrange(len(keys))] = rng.choice(RESERVED_KEYS)
         return {k: gen_doc(rng, depth + 1, maxdepth, False) for k in keys}
     return [gen_doc(rng, depth + 1, maxdepth, False) for _ in range(n)]
 
